@@ -41,6 +41,7 @@ type Obj struct {
 type Pointer struct {
 	O   *Obj
 	Off int
+	Hdr int // 1..3: field Data/Len/Cap of the slice header stored in slot Off of O (reflect.SliceHeader view)
 	// Fn: pointer-like handle for special things (unused for plain pointers)
 }
 
@@ -446,6 +447,19 @@ func (in *Interp) load(p Pointer, t types.Type) Value {
 	if p.O == nil {
 		panic("load through nil pointer (caller must check)")
 	}
+	if p.Hdr != 0 {
+		sv, ok := p.O.Slots[p.Off].(SliceV)
+		if !ok {
+			panic(unsupported{"slice header view of a non-slice"})
+		}
+		switch p.Hdr {
+		case 1:
+			return Pointer{O: sv.O, Off: sv.Off}
+		case 2:
+			return sv.Len
+		}
+		return sv.Cap
+	}
 	if p.O.Raw {
 		return in.loadRaw(p.O, p.Off, t)
 	}
@@ -453,6 +467,26 @@ func (in *Interp) load(p Pointer, t types.Type) Value {
 }
 
 func (in *Interp) store(p Pointer, t types.Type, v Value) {
+	if p.Hdr != 0 {
+		sv, ok := p.O.Slots[p.Off].(SliceV)
+		if !ok {
+			panic(unsupported{"slice header view of a non-slice"})
+		}
+		switch p.Hdr {
+		case 1:
+			dp, ok := v.(Pointer)
+			if !ok {
+				panic(unsupported{"slice header Data set to a non-pointer value"})
+			}
+			sv.O, sv.Off = dp.O, dp.Off
+		case 2:
+			sv.Len = v.(*sym.Term)
+		default:
+			sv.Cap = v.(*sym.Term)
+		}
+		p.O.Slots[p.Off] = sv
+		return
+	}
 	if p.O.Raw {
 		in.storeRaw(p.O, p.Off, t, v)
 		return
